@@ -22,6 +22,7 @@ pub fn check(tier: Tier) -> Check {
         }
     }
     Check {
+        also_rel: false,
         property: "C15",
         level: "model_checking",
         rule: "histories of operations (publish QoS 0/1/2, subscribe, unsubscribe, ping, with Receive Maximum 1 or 2 so that a leaked slot shows) in which any pending operation future is dropped at any point - before its first poll, awaiting its acknowledgement, between the QoS 2 phases - and streams are dropped, followed by the late acknowledgements and further operations; run() must stay pending, survivors get exactly their own results, one more QoS>0 publish is accepted after the late acknowledgement; non-trivial = a late acknowledgement of a cancelled operation was delivered".into(),
